@@ -174,6 +174,46 @@ func sameCoord(a, b *coordinate.Coordinate) bool {
 		math.Float64bits(a.Height) == math.Float64bits(b.Height)
 }
 
+// rttIDs: identity of every concrete round-trip sample (spec/Coord.tla RttId): neg 0..3, zero 4, ok 5..10, big 11..14
+var rttIDs = func() map[uint64]int {
+	m := map[uint64]int{}
+	base := map[string]int{"neg": 0, "zero": 4, "ok": 5, "big": 11}
+	size := map[string]int{"neg": 4, "zero": 1, "ok": 6, "big": 4}
+	for rc, b := range base {
+		for rv := 0; rv < size[rc]; rv++ {
+			m[math.Float64bits(rttOf(rc, rv).Seconds())] = b + rv
+		}
+	}
+	return m
+}()
+
+func sameFloats(a, b []float64) bool {
+	if len(a) != len(b) {
+		return false
+	}
+	for i := range a {
+		if math.Float64bits(a[i]) != math.Float64bits(b[i]) {
+			return false
+		}
+	}
+	return true
+}
+
+// sameClientState: the complete client state, bit for bit
+func sameClientState(a, b coordinate.VerifClientState) bool {
+	if !sameCoord(a.Coord, b.Coord) || !sameCoord(a.Origin, b.Origin) || a.AdjIndex != b.AdjIndex || a.Resets != b.Resets ||
+		!sameFloats(a.AdjSamples, b.AdjSamples) || len(a.Latency) != len(b.Latency) {
+		return false
+	}
+	for k, v := range a.Latency {
+		w, ok := b.Latency[k]
+		if !ok || !sameFloats(v, w) {
+			return false
+		}
+	}
+	return true
+}
+
 func runCoord(in, out string) {
 	scheds, err := h.ReadSchedules(in)
 	if err != nil {
@@ -223,6 +263,10 @@ func runCoord(in, out string) {
 		if ping == nil {
 			h.Die("no ping delegate")
 		}
+		client := n.Serf.VerifCoordClient()
+		if client == nil {
+			h.Die("no coordinate client")
+		}
 		peers := make([]*memberlist.Node, np+1)
 		ptr := net.NewTransport("peers")
 		for i := 1; i <= np; i++ {
@@ -233,10 +277,12 @@ func runCoord(in, out string) {
 			sent := coordOf(st.Str("cc"), st.Int("fv"))
 			rtt := rttOf(st.Str("rc"), st.Int("rv"))
 			before, _ := n.Serf.GetCoordinate()
+			stBefore := client.VerifState()
 			cachedBefore, hadBefore := n.Serf.GetCachedCoordinate(peers[p].Name)
 			rejBefore := rejected()
 			ping.NotifyPingComplete(peers[p], rtt, pingPayload(sent))
 			after, _ := n.Serf.GetCoordinate()
+			stAfter := client.VerifState()
 			cachedAfter, hasAfter := n.Serf.GetCachedCoordinate(peers[p].Name)
 			cu := hadBefore == hasAfter && (!hasAfter || cachedBefore == cachedAfter) // same entry object as before
 			cs := hasAfter && cachedAfter != cachedBefore && sameCoord(cachedAfter, sent)
@@ -248,8 +294,20 @@ func runCoord(in, out string) {
 			}
 			own, ownOK := n.Serf.GetCachedCoordinate(n.Name)
 			acc := b2i(rejected() == rejBefore) // every payload here decodes, so "not rejected" = Update returned no error
+			win := make([][]int, np)
+			for i := 1; i <= np; i++ {
+				win[i-1] = []int{}
+				for _, x := range stAfter.Latency[peers[i].Name] {
+					id, ok := rttIDs[math.Float64bits(x)]
+					if !ok {
+						id = 99
+					}
+					win[i-1] = append(win[i-1], id)
+				}
+			}
 			obs := map[string]interface{}{
 				"acc": acc, "same": b2i(sameCoord(before, after)), "cache": cache, "cs": b2i(cs), "cu": b2i(cu),
+				"st": b2i(sameClientState(stBefore, stAfter)), "win": win,
 				"fin":  b2i(after.IsValid() && finite(after.Error) && finite(after.Height)),
 				"dim":  b2i(len(after.Vec) == int(cfg.Dimensionality) && ownOK && len(own.Vec) == int(cfg.Dimensionality)),
 				"hmin": b2i(after.Height >= cfg.HeightMin), "elo": b2i(after.Error >= 0), "ehi": b2i(after.Error <= cfg.VivaldiErrorMax),
